@@ -7,6 +7,7 @@ package explore
 import (
 	"crypto/sha256"
 	"fmt"
+	"os"
 	"runtime"
 	"sync"
 	"sync/atomic"
@@ -76,6 +77,7 @@ type Explorer struct {
 	Depth       int
 	Exhaustive  bool // closure reached (frontier emptied)
 	BoundDone   bool // the declared depth bound was completed without hitting the state cap
+	DepthCapHit bool // a search without a depth bound of its own was stopped at ClosureDepthCap levels
 	Blocked     int64
 	Hists       [][]world.Op
 	SampleHists [][]world.Op // a few of the deepest shortest-histories found
@@ -130,6 +132,9 @@ type trans struct {
 	findings []Finding
 }
 
+// ClosureDepthCap bounds searches that have no depth bound of their own (see Run).
+const ClosureDepthCap = 36
+
 // Run performs the search.
 func (e *Explorer) Run() {
 	if e.Workers <= 0 {
@@ -158,7 +163,19 @@ func (e *Explorer) Run() {
 			e.BoundDone = true
 			break
 		}
+		if e.MaxDepth == 0 && depth >= ClosureDepthCap {
+			// A closure of these finite universes ends after a few dozen levels (deepest on the unchanged tree:
+			// 22). A state space that keeps growing level after level (a counter that drifts, say) would keep the
+			// search going for hours on a narrow frontier without ever reaching the state cap: stop, report what
+			// was found, and say that the closure was not reached.
+			e.Exhaustive = false
+			e.DepthCapHit = true
+			break
+		}
 		e.Depth = depth + 1
+		if os.Getenv("VERIF_TRACE") != "" {
+			fmt.Fprintf(os.Stderr, "trace %s depth=%d frontier=%d states=%d\n", e.Cfg.Name, depth, len(frontier), e.States)
+		}
 		results := make([][]trans, len(frontier))
 		var next int64 = -1
 		var wg sync.WaitGroup
